@@ -3,6 +3,10 @@
 package models
 
 import (
+	"sync"
+	"sync/atomic"
+	"time"
+
 	"github.com/aukilabs/hagall/internal/verifnd"
 )
 
@@ -41,4 +45,35 @@ func VerifC10ParTypes() {
 	verifnd.Par(func() { x = s.AddType("a") }, func() { y = s.AddType(n2) })
 	verifnd.Assert((x == y) == same, "C10.par.types_one_to_one")
 	verifnd.Reach("C10.partypes.done")
+}
+
+// VerifC09FrameWorker: the session's frame worker goroutine against a connection that unregisters its frame
+// handler (as leaveSession does before the connection's scheduler is closed): once the cancel function has
+// returned, the handler is never run again — in no interleaving — and the worker ends when the session closes.
+func VerifC09FrameWorker() {
+	const frame = 50 * time.Millisecond
+	s := NewSession(1, frame)
+	var cancelled atomic.Bool
+	runs := 0
+	var mu sync.Mutex
+	stop := s.HandleFrame(func() {
+		verifnd.Assert(!cancelled.Load(), "C09.frame.handler_not_run_after_cancel")
+		mu.Lock()
+		runs++
+		mu.Unlock()
+	})
+	other := 0
+	s.HandleFrame(func() {
+		mu.Lock()
+		other++
+		mu.Unlock()
+	})
+	verifnd.FireTickers(frame) // a tick is due when the block starts
+	verifnd.Par(func() { s.StartDispatchFrames() }, func() {
+		stop()
+		cancelled.Store(true)
+		s.Close()
+	})
+	_ = other
+	verifnd.Reach("C09.frame.done")
 }
